@@ -1,0 +1,15 @@
+//go:build verif
+
+package mount
+
+import "github.com/hack-pad/hackpadfs"
+
+// VerifStep, when set, is called at the steps of addMount (after the unlocked look-up, after taking the
+// lock, after the mount point was checked) with the file system being mounted. Verification builds only.
+var VerifStep func(point string, mountFS hackpadfs.FS)
+
+func verifStep(point string, mountFS hackpadfs.FS) {
+	if VerifStep != nil {
+		VerifStep(point, mountFS)
+	}
+}
